@@ -392,6 +392,19 @@ def deltak_case(run, ps, rng, n, L, nthread, poles):
     clean = ref['maxextra'] == 0
     if not (np.isclose(P['power'], mean, rtol=2e-4, atol=1e-6 * L**3) | ~clean).all():
         return run.violation('deltak-power', dict(got=P['power'].ravel()[:4], expected=mean.ravel()[:4], **desc))
+    # the multipoles returned by calc_pk_from_deltak itself (same units as the wedges: L^3)
+    cp0 = cnt.sum(axis=1)
+    cleank0 = clean.all(axis=1)
+    bpo = np.asarray(P['binned_poles'])
+    if len(poles):
+        if bpo.shape != (len(poles), len(cp0)) or not np.array_equal(np.asarray(P['N_mode_poles'])[cleank0], cp0[cleank0]):
+            return run.violation('deltak-poles-shape-or-counts', dict(shape=list(bpo.shape), **desc))
+        for ip, l in enumerate(poles):
+            with np.errstate(invalid='ignore', divide='ignore'):
+                exp = np.where(cp0 > 0, ref['sumpoles'][ip] / np.maximum(cp0, 1), 0) * L**3
+                tol = 2e-4 * np.where(cp0 > 0, ref['sumpoles_abs'][ip] / np.maximum(cp0, 1), 0) * L**3 + 1e-6
+            if ((np.abs(bpo[ip] - exp) > tol) & cleank0).any():
+                return run.violation('deltak-poles-values', dict(pole=int(l), got=bpo[ip][:4], expected=exp[:4], **desc))
     # project_3d_to_poles: one mu bin
     bp, Np = ps.project_3d_to_poles(kedges, w.astype(np.float32), L, np.array(poles))
     run.ev()
@@ -440,7 +453,7 @@ def check(run):
                 k += 1
                 Nk = int(rng.integers(1, 9))
                 Nmu = [1, 2, 3, 4, 7, 5][k % 6]
-                poles = [(), (0, 2, 4), (0,), (2,), (0, 1, 2, 3, 4), (2, 0, 4), (4, 2, 0), (3, 1)][k % 8]  # any order, any subset
+                poles = [(), (0, 2, 4), (0,), (2,), (0, 1, 2, 3, 4), (2, 0, 4), (4, 2, 0), (3, 1), (10,), (0, 6, 8, 10)][k % 10]  # any order, any subset
                 nthread = [1, 2, 16, 3, 7][(k // 2) % 5]
                 L = [1.0, 2 * np.pi, 500.0][k % 3]
                 if n > 33 and k % 3:
@@ -486,6 +499,9 @@ def check(run):
         thread_independence(run, ps, rng, n, 100.0)
     for n in ([4, 7, 10] if run.quick else range(3, 20)):
         deltak_case(run, ps, rng, n, 250.0, [1, 4, 16][n % 3], (0, 2, 4))
+        # a single multipole; the highest documented order (10); an unsorted mix
+        deltak_case(run, ps, rng, n, [250.0, 3.0][n % 2], [16, 1, 4][n % 3], [(0,), (2,), (10,), (4,)][n % 4])
+        deltak_case(run, ps, rng, n, 100.0, 4, [(0, 10), (6, 8, 10), (10, 4)][n % 3])
 
 
 def replay(run, data):
